@@ -12,7 +12,7 @@ RULE = ("programs biased to textually identical gate statements in different sco
         "is inconclusive). non-trivial = program has a name collision or a twin; distinct = S-expression")
 ASSUMPTIONS = ["lexical binding rules as implemented in core_from_sx: parameters shadow header names inside the macro body only"]
 TIERS = {"quick": {"shards": 8, "budget_s": 100}, "thorough": {"shards": 16, "budget_s": 360}}
-REQUIRE = {"route:builder": 300, "judged-after-shifted-twin": 500, "route:text-native": 1000, "override-of-shadowed-name": 300, "route:build-lists": 300, "route:text": 300, "memo-hits": 500, "memo-hits-across-scopes": 50, "shadowing-programs": 300, "twin-programs": 300,
+REQUIRE = {"used-qubit-analyses-compared": 3000, "route:builder": 300, "judged-after-shifted-twin": 500, "route:text-native": 1000, "override-of-shadowed-name": 300, "route:build-lists": 300, "route:text": 300, "memo-hits": 500, "memo-hits-across-scopes": 50, "shadowing-programs": 300, "twin-programs": 300,
            "metamorphic-pairs": 200}
 
 MEMO = {"hits": 0, "cross": 0, "calls": 0}
@@ -55,6 +55,25 @@ def _names(args):
             yield a
         elif isinstance(a, (list, tuple)):
             yield from _names(a[1:])
+
+
+INFO = {}
+
+
+def qubits_of(tree):
+    """Every (register, index) that occurs as a resolved qubit in a meaning tree."""
+    out = set()
+
+    def scan(t):
+        if isinstance(t, tuple):
+            if len(t) == 3 and t[0] == "q" and isinstance(t[1], str) and isinstance(t[2], int):
+                out.add((t[1], t[2]))
+                return
+            for x in t:
+                scan(x)
+
+    scan(tree)
+    return out
 
 
 def judge(case):
@@ -127,6 +146,21 @@ def judge(case):
                 pass
         elif o2[0] == "exc":
             fails.append(("expand_macros-crashed:" + o2[1], {"error": o2[2]}))
+    # (c) used-qubit analysis of the circuit as written (macro calls analysed in place): every identifier inside a call's
+    #     arguments means what it means where the call is written.  Judged when the model and the library's own analysis of
+    #     the macro-expanded circuit agree on the set (so the difference lies in how calls are followed).
+    if not fails and m_full is not None:
+        want_q = qubits_of(m_full)
+        oa = lib.outcome(lib.used_qubits, c)
+        ob = lib.outcome(lambda: lib.used_qubits(lib.expand_macros(c)))
+        if ob[0] == "ok" and oa[0] != "budget":
+            as_set = lambda r: {(k, i) for k, v in dict(r).items() for i in v}
+            if as_set(ob[1]) == want_q:
+                if oa[0] != "ok":
+                    fails.append(("used-qubit-analysis-raised:" + oa[1], {"error": oa[2], "expected": sorted(want_q)}))
+                elif as_set(oa[1]) != want_q:
+                    fails.append(("used-qubit-analysis-breaks-lexical-binding", {"expected": sorted(want_q), "got": sorted(as_set(oa[1]))}))
+                INFO["used"] = INFO.get("used", 0) + 1
     # (b) let substitution with an override of a name that some macro parameter shadows
     ov = case.get("ov")
     if ov and not fails:
@@ -280,7 +314,9 @@ def process(ctx, case, seen):
     rec = ctx.rec
     prog = case_prog(case)
     MEMO.update(hits=0, cross=0, calls=0)
+    INFO.clear()
     st, fails, info = judge(case)
+    rec.count("used-qubit-analyses-compared", INFO.get("used", 0))
     letnames = {s[1] for s in prog[1:] if s[0] in ("let", "register", "map")}
     shadow = any(s[0] == "macro" and set(s[2:-1]) & letnames for s in prog[1:])
     gates = [g for _p, g in statements_with_paths(prog)]
